@@ -287,3 +287,17 @@ pub fn trailing(r: &mut Rng) -> Vec<u8> {
     }
     v
 }
+
+/// Degenerate record streams: well-framed records whose body is shorter than anything a parser expects
+/// (empty, 1..4 bytes, a handshake header announcing nothing), of any content type, alone or back to back.
+pub fn degenerate(r: &mut Rng) -> Vec<u8> {
+    const BODIES: [&[u8]; 10] = [&[], &[], &[1], &[1, 0], &[1, 0, 0], &[1, 0, 0, 0], &[1, 0, 0, 5], &[0, 0, 0, 0], &[2, 0, 0, 0], &[1, 0, 0, 2, 3, 3]];
+    let mut v = vec![];
+    for _ in 0..r.urange(1, 3) {
+        let ct = *r.pick(&[0x16u8, 0x16, 0x16, 0x14, 0x15, 0x17, 0x18]);
+        let ver = *r.pick(&[0x0301u16, 0x0303, 0x0300, 0x0304]);
+        let body: &[u8] = BODIES[r.usize_below(BODIES.len())];
+        v.extend_from_slice(&record(ct, ver, body));
+    }
+    v
+}
